@@ -791,13 +791,13 @@ def check_c06(pid, tier, seed):
     # white box on mate / look-alike positions (terminal scoring, history hits inside the tree): conformance only
     mfens = [l.strip() for l in open(os.path.join(CORPUS, "mates.fen")) if l.strip() and not l.startswith("#")]
     wbs = [{"id": 900000 + i, "steps": [{"fen": f, "depth": 4 if len([c for c in f.split()[0] if c.isalpha()]) <= 14 else 3, "seed": rnd.randrange(1 << 30), "workers": 1 + i % 2, "tables": 2, "buckets": 256, "tag": "whitebox"}]}
-           for i, f in enumerate(mfens if not quick else mfens[::2] + mfens[-5:])]
+           for i, f in enumerate(mfens if not quick else mfens[seed % 3::3])]
     # the look-alikes in which a check lands on the horizon: every capture search logged node by node (no sampling), so that
     # SearchWB's soundness clause sees each being-mated score the capture search returns
     for i, f in enumerate(mfens[-14:] if not quick else mfens[-14:][seed % 2::2]):
         for d in ((1, 2) if quick else (1, 2, 3)):
             wbs.append({"id": 950000 + 10 * i + d, "steps": [{"fen": f, "depth": d, "seed": rnd.randrange(1 << 30), "workers": 1, "tables": 2, "buckets": 256, "tag": "whitebox-horizon",
-                                                              "qs_every": 1, "qs_budget": 8000 if quick else 40000}]})
+                                                              "qs_every": 1, "qs_budget": 3000 if quick else 40000}]})
     whitebox(chk, wvbin, wd, pid, wbs)
     st, samples = trace_stats(traces)
     ver = json.load(open(os.path.join(WORK, "tb", "verified.json")))
